@@ -122,7 +122,7 @@ static bool checkCodec(Ctx &c, const codec::Codec &k, const Input &in)
         c.label("multi-element-output");
         return true;
     }
-    c.require(xu::streamReaderAccepts(ys, &err), std::string("c02 ") + k.name + " output-not-well-formed", [&] {
+    c.require(xu::streamReaderAccepts(ys, &err) && xu::uniqueAttributes(ys, &err), std::string("c02 ") + k.name + " output-not-well-formed", [&] {
         return std::string(k.name) + " serialises to XML that QXmlStreamReader rejects (" + q(err) + ")\n output=" + y.left(3000).toStdString() + "\n input: " + q(in.desc) + "\n E=" + q(elementXml(in.target).left(3000));
     });
     // (c) fixpoint
